@@ -100,6 +100,7 @@ type Elem struct {
 	H          uint32   `json:",omitempty"`
 	Literal    bool     `json:",omitempty"` // value: written as an untyped constant literal (not logged)
 	Set        string   `json:",omitempty"`
+	Paren      bool     `json:",omitempty"` // set: the reference is written in parentheses, (setaa)
 	Inline     []Elem   `json:",omitempty"`
 }
 
